@@ -193,9 +193,11 @@ CATALOGUE = {
         ["-c"], ["-o", "x.o"], ["-x", "c++"], ["-shared"], ["-static"], ["-lm"], ["-Ldir"], ["-w"], ["-v"], ["-E"], ["-S"], ["-P"], ["-C"], ["-H"], ["-M"], ["-MM"],
         ["-UX"], ["-nostdinc"], ["-idirafter", "d"], ["-iquote", "d"], ["-fno-exceptions"], ["-funroll-loops"], ["-ffast-math"], ["-flto"], ["-Wno-unused"], ["-fvisibility=hidden"],
         ["-DX"], ["-D", "X"], ["-DX=1"], ["-DX=a b"], ["-Iinc"], ["-I", "inc"], ["-isystem", "sys"], ["-isystemsys"], ["-include", "f.h"], ["-includef.h"],
+        ["-p"], ["-pg"], ["-pedantic"], ["-pie"], ["-s"], ["-r"], ["-ansi"], ["-O0"], ["-O1"], ["-Os"], ["-Wpedantic"], ["-fPIE"], ["-m64"], ["-m32"], ["-rdynamic"], ["-nostdlib"],
+        ["-B", "dir"], ["-u", "sym"], ["-z", "now"], ["-T", "script"], ["-e", "entry"], ["-dumpversion"], ["-print-search-dirs"], ["-Q"], ["-time"], ["-save-temps"], ["-undef"], ["-trigraphs"],
         ["-D-X"], ["-I-weird"], ["--sysroot=/x"], ["-Wl,-rpath,/x"], ["-fdiagnostics-color=always"], ["-gdwarf-4"], ["-gsplit-dwarf"], ["-coverage"], ["-fcf-protection"],
     ],
-    "clang": [["-fsycl-is-device"], ["-fcolor-diagnostics"], ["-fsycl-unnamed-lambda"], ["-Weverything"], ["-g3"], ["-O2"], ["-cc1"], ["-fPIC"]],
+    "clang": [["-fsycl"], ["-p"], ["-pthread"], ["-fsycl-is-device"], ["-fcolor-diagnostics"], ["-fsycl-unnamed-lambda"], ["-Weverything"], ["-g3"], ["-O2"], ["-cc1"], ["-fPIC"]],
     "icx": [["-fsycl"], ["-fsycl-targets=spir64"], ["-fsycl-unnamed-lambda"], ["-qopenmp"], ["-fopenmp"], ["-xHost"], ["-g3"], ["-O2"], ["-fiopenmp"], ["-fopenmp-targets=spir64"]],
     "nvcc": [["-ccbin", "g++"], ["-gencode", "arch=compute_70,code=sm_70"], ["-arch=sm_70"], ["--gpu-architecture=sm_80"], ["-Xcompiler", "-fPIC"], ["-lineinfo"], ["-rdc=true"], ["-dc"],
              ["-dlink"], ["-std=c++17"], ["-O3"], ["-g"], ["-G"], ["--expt-relaxed-constexpr"], ["-use_fast_math"], ["-maxrregcount=64"], ["-cudart", "static"]],
@@ -243,6 +245,8 @@ def _model_parser(f, extra):
     for opt in extra:
         a = {"dest": "x_" + opt.get("dest", "d")}
         act = opt.get("action")
+        if opt.get("dest") in ("defines", "include_paths", "include_files") and act in ("append_const", "append"):
+            a["dest"] = opt["dest"]  # contributes directly to an extracted list: modelled as what it is
         if act == "append_const":
             a.update(action="append_const", const=opt.get("const"))
         elif act in ("store_split", "extend_match", "store", None):
@@ -287,6 +291,11 @@ def r5(ctx):
             key = f"config:ArgumentParser.parse_args:catalogue:{comp}:{' '.join(vec)}"
             argv = ["-DA=1"] + list(vec) + ["-Ilast", "a.c"] + list(c.get("options", []))
             exp = EXPECT.get(tuple(vec), ([], [], []))
+            for opt in extra:
+                # a compiler definition may declare what one of its own flags contributes (e.g. -pthread defines _REENTRANT)
+                if len(vec) == 1 and vec[0] in opt.get("flags", []) and opt.get("action") == "append_const" and opt.get("dest") in ("defines", "include_paths", "include_files"):
+                    idx = ("defines", "include_paths", "include_files").index(opt["dest"])
+                    exp = tuple(list(x) + ([opt.get("const")] if j == idx else []) for j, x in enumerate(exp))
             want_d = ["A=1"] + exp[0] + [o[2:] for o in c.get("options", []) if o.startswith("-D")]
             want_i = exp[1] + ["last"]
             want_f = exp[2]
